@@ -37,11 +37,19 @@ out.append('Each row is a change written by an independent sub-agent that saw on
            'Patch, demonstration and meta.json are in `seeded/<seed>/`.\n')
 out.append('| seed | breaks | site and what it needs to manifest | caught by |')
 out.append('|---|---|---|---|')
+CROSS = json.load(open(os.path.join(D, 'notes', 'cross_catches.json'))) if os.path.exists(os.path.join(D, 'notes', 'cross_catches.json')) else {}
+
+
 def nat(s):
     m = re.match(r'(.*?)(\d+)-(\d+)$', s)
     return (int(m.group(2)), int(m.group(3))) if m else (0, 0)
 for d in sorted(glob.glob(os.path.join(D, 'seeded', 'C*')), key=lambda x: nat(os.path.basename(x))):
     m = json.load(open(os.path.join(d, 'meta.json')))
+    extra = CROSS.get(m['id'], [])
+    if extra:
+        m['caught_by'] = list(m.get('caught_by') or []) + [c for c in extra if c not in (m.get('caught_by') or [])]
+    if m.get('outside_quantifier') and not m.get('caught_by'):
+        m['caught_by'] = ['(outside the quantifier: see meta.json)']
     note = ' '.join(m.get('needs_to_manifest', '').split())
     note = re.sub(r'^(Change|C\d\d ?/ ?change|Seed)\s*\d*\s*(\(C\d\d\))?\s*[-—:]*\s*', '', note, flags=re.I)
     note = note.replace('|', '/')[:260]
